@@ -429,7 +429,19 @@ pub fn run(r: &Ref, cases: &[Value], seed: u64, flip_stride: usize) -> CReport {
                         // n is a declared count: n + 1 generators are within budget; execution is
                         // skipped when that alone would exceed 10^6 generators
                         let size = n.min(1 << 40);
-                        (lib::update(Suite::Sha, &sig, &sk, &msgs[0], &msgs[1], idx, n, Some(4usize.saturating_mul(size).saturating_add(16).min(2_000_000))).map(|_| ()), size)
+                        if n > 100_000 {
+                            // an absurd declared count: the call is followed for its first 64 generators only; being
+                            // stopped there is the declared work, anything else (a crash before the first generator)
+                            // is the callee's
+                            let got = lib::update_declared(Suite::Sha, &sig, &sk, &msgs[0], &msgs[1], idx, n, 64).map(|_| ());
+                            let got = match got {
+                                Out::Panic(p) if p.starts_with("GenBudgetExceeded") => Out::Err("declared work".into()),
+                                g => g,
+                            };
+                            (got, size)
+                        } else {
+                            (lib::update(Suite::Sha, &sig, &sk, &msgs[0], &msgs[1], idx, n, Some(4usize.saturating_mul(size).saturating_add(16).min(2_000_000))).map(|_| ()), size)
+                        }
                     }
                     "ProofGen" => {
                         let l = a["L"].as_u64().unwrap() as usize;
@@ -582,6 +594,15 @@ pub fn roundtrips(seed: u64, rep: &mut CReport) {
                 let g = lib::proof_verify_json(s, &v, &pk, &None, &None, &None, &None);
                 if let Out::Panic(p) = g {
                     bad(rep, "C08", format!("serde_json decoding of a proof panicked: {p}"));
+                }
+            }
+            // every variant name an enum-typed artefact could be given in JSON, with and without a body
+            for kind in ["signature", "blind_signature", "proof", "commitment"] {
+                for js in ["{\"_Unreachable\":null}", "{\"_Unreachable\":[]}", "\"_Unreachable\"", "{\"CL03\":null}", "{\"BBSplus\":null}", "{\"Unknown\":null}"] {
+                    rep.tick("C08");
+                    if let Out::Panic(p) = lib::json_probe(s, kind, js, &pk) {
+                        bad(rep, "C08", format!("serde_json decoding of a {kind} from {js} gives a value whose use panics: {p}"));
+                    }
                 }
             }
         }
